@@ -157,7 +157,7 @@ Proof.
   intros Hw H. pose proof Hw as Hw'. rewrite (ci_eq_word _ _ H) in Hw'.
   constructor; cbn [traw trange tty tval create_token].
   - reflexivity.
-  - rewrite (utf8_len_word _ Hw), (utf8_len_word _ Hw'). unfold lenN. rewrite (ci_eq_length _ _ H). reflexivity.
+  - unfold lenN. rewrite (ci_eq_length _ _ H). reflexivity.
   - apply classify_ci. exact H.
   - exact H.
   - rewrite classify_word_ty. discriminate.
